@@ -116,6 +116,15 @@ def run_(ctx, model):
                 probs += view.diff_views(a, b)
             except Exception as e:  # noqa
                 probs.append(f're-blocked file cannot be read: {type(e).__name__}: {str(e)[:120]}')
+            # the same comparison by a decoder written from the specification alone (every disk block at the place the
+            # specification gives it): a re-blocker and a reader that agree with each other only do not pass this
+            try:
+                da, db = spec.decode_volume(out), spec.decode_volume(fi.path)
+                if da.shape != db.shape or not np.array_equal(da.view(np.uint32), db.view(np.uint32)):
+                    bad = int(np.count_nonzero(da.view(np.uint32) != db.view(np.uint32))) if da.shape == db.shape else -1
+                    probs.append(f'decoded from the specification alone, the re-blocked file differs from the source on {bad} voxels')
+            except Exception as e:  # noqa
+                probs.append(f're-blocked file cannot be decoded from the specification: {type(e).__name__}: {str(e)[:100]}')
         for p in probs:
             ctx.fail('re-blocked file: ' + p, desc)
 
